@@ -8,13 +8,14 @@ open GS.Alloc
 /-- outcome of a function as far as attachments are concerned -/
 structure Out (f : Req → Sub) (s s' : State) : Prop where
   att : (∀ b ∈ s.builders, BFun f b) →
-    (∀ b ∈ s'.builders, BFun f b) ∧ (∀ u t, AttQ u t s → AttQ u t s' ∨ ErrSeen f u s')
+    (∀ b ∈ s'.builders, BFun f b) ∧ (∀ u t r, AttQ u t r s → AttQ u t r s' ∨
+      (r ∈ s'.closedStreams ∧ errCount u s.log < errCount u s'.log))
   closed : ∀ r ∈ s.closedStreams, r ∈ s'.closedStreams
   wcore : WCore s s'
   log : ∃ X, s'.log = s.log ++ X
 
 theorem Out.refl (f : Req → Sub) (s : State) : Out f s s :=
-  ⟨fun h => ⟨h, fun _ _ a => Or.inl a⟩, fun _ h => h, WCore.of_eq rfl, ⟨[], by simp⟩⟩
+  ⟨fun h => ⟨h, fun _ _ _ a => Or.inl a⟩, fun _ h => h, WCore.of_eq rfl, ⟨[], by simp⟩⟩
 
 theorem Out.trans {f : Req → Sub} {a b c : State} (h1 : Out f a b) (h2 : Out f b c) : Out f a c := by
   obtain ⟨X, x⟩ := h1.log
@@ -24,10 +25,12 @@ theorem Out.trans {f : Req → Sub} {a b c : State} (h1 : Out f a b) (h2 : Out f
   obtain ⟨b1, a1⟩ := h1.att hb
   obtain ⟨b2, a2⟩ := h2.att b1
   refine ⟨b2, ?_⟩
-  intro u t hatt
-  rcases a1 u t hatt with h | h
-  · exact a2 u t h
-  · exact Or.inr (h.mono h2.closed h2.log)
+  intro u t r hatt
+  rcases a1 u t r hatt with h | h
+  · rcases a2 u t r h with h' | h'
+    · exact Or.inl h'
+    · exact Or.inr ⟨h'.1, Nat.lt_of_le_of_lt (errCount_mono h1.log u) h'.2⟩
+  · exact Or.inr ⟨h2.closed r h.1, Nat.lt_of_lt_of_le h.2 (errCount_mono h2.log u)⟩
 
 /-- builders, closed streams and waiters untouched, log extended -/
 theorem Out.same (f : Req → Sub) {s s' : State} (hb : s'.builders = s.builders) (hc : s'.closedStreams = s.closedStreams)
@@ -35,7 +38,7 @@ theorem Out.same (f : Req → Sub) {s s' : State} (hb : s'.builders = s.builders
   refine ⟨?_, fun r hr => by rw [hc]; exact hr, hw, hl⟩
   intro h
   refine ⟨by rw [hb]; exact h, ?_⟩
-  intro u t ⟨b, hbm, ha⟩
+  intro u t r ⟨b, hbm, ha⟩
   exact Or.inl ⟨b, by rw [hb]; exact hbm, ha⟩
 
 theorem frame_out (f : Req → Sub) {s s' : State} (fr : Frame s s') (hl : ∃ X, s'.log = s.log ++ X) : Out f s s' :=
@@ -89,7 +92,7 @@ theorem buildMessage_out (pick : Pick) (f : Req → Sub) (s : State) (ticket : N
     refine ⟨?_, fun r hr => by rw [h03]; exact hr, WCore.of_eq h04, hl⟩
     intro hb
     refine ⟨h02 hb, ?_⟩
-    intro u t ⟨b, hbm, ha⟩
+    intro u t r ⟨b, hbm, ha⟩
     exact Or.inl ⟨b, h01 b hbm, ha⟩
   | some b =>
     rw [hlast] at hl
@@ -111,12 +114,12 @@ theorem buildMessage_out (pick : Pick) (f : Req → Sub) (s : State) (ticket : N
         rcases (setLast_spec s0.builders b b' hlast).2.1 x hx with rfl | hx
         · exact r1
         · exact hb0 x hx
-      · intro u t ⟨x, hx, ha⟩
+      · intro u t r ⟨x, hx, ha⟩
         left
         rcases setLast_mem_old s0.builders b b' hlast x (h01 x hx) with h1 | h1
         · exact ⟨x, by rw [hb3]; exact h1, ha⟩
         · subst h1
-          exact ⟨b', by rw [hb3]; exact setLast_mem_new _ _ _ hlast, r2 u t ha⟩
+          exact ⟨b', by rw [hb3]; exact setLast_mem_new _ _ _ hlast, r2 u t r ha⟩
     generalize hs1 : ({ s0 with builders := setLast s0.builders b' } : State).emit
         [Event.built ticket b.topic size (b'.accounted - b.accounted)] = s1 at hl ⊢
     have q1 : QFrame ({ s0 with builders := setLast s0.builders b' } : State) s1 := by subst hs1; exact (emit_frame _ _).q
